@@ -25,7 +25,10 @@ RULE = ('valid base scenarios (chains of 1..4 certificates under a root CA ancho
         'trust (and wrong key / name / flag / server name / MD5), self-signed leaf; server-name classes (exact, case, '
         'wildcard leftmost / two labels / parent / dot-less / middle / partial / literal, embedded NUL, UTF-8, punycode, '
         'prefix / suffix, trailing dot, CN vs SAN combinations, string types, no server name); leaf KeyUsage bit sets; '
-        'v1/v2 leaf, version 4, empty chain, swapped / missing / duplicated certificates. Every case runs with static '
+        'v1/v2 leaf, version 4, empty chain, swapped / missing / duplicated certificates; extension and attribute OIDs that extend, '
+        'truncate or alias a recognised OID. Half of the accepted cases are re-run in API-level variants: RSA anchor keys '
+        'written with leading zero bytes (same result), time callback reporting the time unavailable (TIME_UNKNOWN), last '
+        'byte of a certificate missing, an empty certificate first (rejected). Every case runs with static '
         'anchors under whole-certificate, seeded random and (1 in 4) bytewise chunking, and - when the anchor names are '
         'pairwise distinct - with all anchors behind the dynamic callback and with a static/dynamic mix. Sweep: for '
         'accepted CA-anchored chains every byte of every TBS and signature value before the anchor XORed with 0x01, 0x80 '
